@@ -5,6 +5,7 @@ exact-arithmetic statements over ℚ for every number of layers, every state and
 length; round-off is measured by the search stage of the check, not assumed.
 -/
 import HermesProofs.Water
+import HermesProofs.Substeps
 namespace Hermes.Water
 
 /-- Storage after one `Water` call, in cm of water: Σ WG1·dz. -/
@@ -102,6 +103,45 @@ theorem C01_water_day_balance (n : ℕ) (dz : ℚ) (hdz : dz ≠ 0) :
     simp only [dayFinal, dayRun, List.zip_cons_cons, List.foldr_cons]
     rw [this, hb]
     ring
+
+/-- **The sub-steps cover exactly the day.** For every soil state, rain depth and surface flux the
+adaptive selection of run.go:494-524,576-581 yields `STEPS ≥ 1` sub-steps of length `WDT` with
+`STEPS · WDT = 1` in exact arithmetic: no part of the day's fluxes is dropped or applied twice.
+(In floating point `round(1/(1/n))` is evaluated by the driver and compared with the probe stream
+of real runs; the truncating variant of the original code lost one sub-step for n = 93, 99, … and
+was repaired.) -/
+theorem C01_substeps_cover_day (i : SubIn ℚ) :
+    1 ≤ (substeps i).2 ∧ ((substeps i).2 : ℚ) * (substeps i).1 = 1 := by
+  have hz := one_le_zsrOf i
+  have hc := ceil_pos_of_one_le _ hz
+  unfold substeps
+  simp only
+  split
+  · rename_i hlt
+    have hcz : (0 : ℤ) ≤ ⌈zsrOf i⌉ := by
+      have : (0 : ℚ) ≤ ((⌈zsrOf i⌉ : ℤ) : ℚ) := by linarith
+      exact_mod_cast this
+    have hce : (Conv.ceil (zsrOf i) : ℚ) = ((⌈zsrOf i⌉ : ℤ) : ℚ) := rfl
+    have hinv : (1 : ℚ) / (1 / Conv.ceil (zsrOf i)) = ((⌈zsrOf i⌉ : ℤ) : ℚ) := by
+      rw [hce]; field_simp
+    simp only [hinv, roundNat_int _ hcz]
+    have hnat : ((⌈zsrOf i⌉.toNat : ℕ) : ℚ) = ((⌈zsrOf i⌉ : ℤ) : ℚ) := by
+      have := Int.toNat_of_nonneg hcz
+      exact_mod_cast this
+    constructor
+    · have : (1 : ℚ) ≤ ((⌈zsrOf i⌉.toNat : ℕ) : ℚ) := by rw [hnat]; exact hc
+      exact_mod_cast this
+    · rw [hnat, hce]; field_simp
+  · simp
+
+/-- **Equal sub-steps.** With `n` sub-steps of equal length `wdt`, `n · wdt = 1`, and the same
+surface flux in each of them, the surface term of the day balance is the whole day's surface flux
+(rain + irrigation − actual evaporation). -/
+theorem C01_equal_substeps_surface (n : ℕ) (wdt fluss0 : ℚ) (h : (n : ℚ) * wdt = 1) :
+    ((List.replicate n (fluss0 * wdt)).sum) = fluss0 := by
+  rw [List.sum_replicate, nsmul_eq_mul]
+  calc (n : ℚ) * (fluss0 * wdt) = fluss0 * ((n : ℚ) * wdt) := by ring
+    _ = fluss0 := by rw [h]; ring
 
 /-! ### non-vacuity: a concrete well-formed state (two layers, heavy rain, drain in layer 1) -/
 
